@@ -1,9 +1,9 @@
 SPECIFICATION Spec
 CONSTANTS
-  DropOff = 2
+  DropOff = 1
   MaxRank = 1
   MaxSpecies = 3
-  MaxEpochs = 8
+  MaxEpochs = 7
   InitSpecies = 1
 INVARIANTS Inv_IdsUnique Inv_AgesOK Inv_RecordBound Inv_StagnationBound Inv_AgeBound Inv_FreshNotPenalised Inv_DeltaSpacing
 CHECK_DEADLOCK FALSE
